@@ -352,6 +352,7 @@ func c12ModeFromHeader(v ssa.Value, fns []*ssa.Function, depth int, seen map[ssa
 func c12R6(c *Ctx, fns []*ssa.Function) {
 	const R6 = "C12.R6.entry-mode-from-header"
 	c.Expect(R6, 2)
+	c.Expect(c12R7, 2)
 	c11PkgFns = fns
 	probe := &Ctx{Prop: c.Prop, Tier: c.Tier, P: c.P, Variant: c.Variant} // role resolution reports lost anchors under C11; not repeated here
 	roles := c11ResolveRoles(probe, fns)
@@ -382,11 +383,298 @@ func c12R6(c *Ctx, fns []*ssa.Function) {
 		if count[key] > 1 {
 			key += "#" + string(rune('0'+count[key]))
 		}
+		c12R7Site(c, fns, key, s)
 		ok := c12ModeFromHeader(s.Call.Common().Args[permIdx[s.Callee]], fns, 0, map[ssa.Value]bool{})
 		c.Check(R6, key, s.Call.Pos(), ok, ifelse(ok, "the mode of the created entry derives from the tar header [in "+FnName(s.Fn)+"]",
 			s.Callee+" [in "+FnName(s.Fn)+"] creates an archive entry with a mode that does not come from the entry's tar header (a constant, or a value also used for non-archive paths): "+
 				"directory / file modes of the packed tree are lost on unpack unless PreservePermissions is set"))
 	}
+}
+
+// ---------- R7: with PreservePermissions every created entry gets its exact mode ----------
+
+const c12R7 = "C12.R7.preserved-modes-exact"
+
+// c12R7Site: behind the creation of an archive entry that carries a mode (a
+// directory or a regular file) and with Store.PreservePermissions set, a chmod
+// of that entry (os.Chmod on its path, or Chmod on its open handle) with a mode
+// taken from the entry's header is executed before the next entry / before the
+// creating function returns successfully.  Decided by a path exploration from
+// the creation site in which (a) tests of the header's Typeflag are resolved by
+// the entry kind the site belongs to, (b) tests of the option (also when carried
+// by a local variable / phi) are resolved to "set".  If the creating function
+// has no such chmod, its call sites are examined instead (helper / dispatch table).
+func c12R7Site(c *Ctx, fns []*ssa.Function, key string, s EffectSite) {
+	flags := c12FlagSets(fns, "~/content/file.Store.PreservePermissions")
+	skip, why := c12ChmodSkipped(fns, flags, s.Fn, s.Call.(ssa.Instruction), s.Call.Common().Args[0], s.Call.Value(), nil, 0)
+	c.Check(c12R7, key, s.Call.Pos(), !skip, ifelse(!skip, "with PreservePermissions set, the entry created here is chmod'ed to its header mode before the next entry",
+		"with PreservePermissions set, "+why+": the entry created by "+s.Callee+" [in "+FnName(s.Fn)+"] keeps the mode produced under the umask, so the unpacked tree does not have the packed modes"))
+}
+
+func c12TypeflagTest(cond ssa.Value) (k int64, eq bool, ok bool) {
+	bo, isBin := cond.(*ssa.BinOp)
+	if !isBin || (bo.Op != token.EQL && bo.Op != token.NEQ) {
+		return 0, false, false
+	}
+	isTF := func(v ssa.Value) bool {
+		for _, r := range Roots(v) {
+			switch u := r.(type) {
+			case *ssa.UnOp:
+				if fa, isFA := u.X.(*ssa.FieldAddr); isFA && u.Op == token.MUL && fieldName(fa.X.Type(), fa.Field) == "archive/tar.Header.Typeflag" {
+					continue
+				}
+			case *ssa.Field:
+				if fieldName(u.X.Type(), u.Field) == "archive/tar.Header.Typeflag" {
+					continue
+				}
+			}
+			return false
+		}
+		return len(Roots(v)) > 0
+	}
+	if kk, isK := constInt(bo.Y); isK && isTF(bo.X) {
+		return kk, bo.Op == token.EQL, true
+	}
+	if kk, isK := constInt(bo.X); isK && isTF(bo.Y) {
+		return kk, bo.Op == token.EQL, true
+	}
+	return 0, false, false
+}
+
+// c12ChmodSkipped explores fn from just behind instruction `from`.
+func c12ChmodSkipped(fns []*ssa.Function, flags map[*ssa.Function]map[ssa.Value]bool, fn *ssa.Function, from ssa.Instruction, path ssa.Value, handleTuple ssa.Value, kind *int64, depth int) (bool, string) {
+	// the entry kind: a Typeflag == k edge dominating the site
+	if kind == nil {
+		for _, i := range Ifs(fn) {
+			cond, t, f := ifEdges(i)
+			if k, eq, ok := c12TypeflagTest(cond); ok {
+				e := t
+				if !eq {
+					e = f
+				}
+				if MustPass(from, newCut().Edges(e)) {
+					kk := k
+					kind = &kk
+				}
+			}
+		}
+	}
+	flag := flags[fn]
+	// chmods of this entry
+	chmods := map[ssa.Instruction]bool{}
+	for _, call := range Calls(fn, func(n string) bool { return n == "os.Chmod" || n == "(*os.File).Chmod" }) {
+		if _, isDefer := call.(*ssa.Defer); isDefer {
+			continue
+		}
+		a := call.Common().Args
+		same := false
+		if CalleeName(call) == "os.Chmod" {
+			same = c11SameRoots(a[0], path)
+		} else if handleTuple != nil {
+			same = c11DerivesFrom(a[0], map[ssa.Value]bool{handleTuple: true})
+		}
+		if same && c12ModeFromHeader(a[1], fns, 0, map[ssa.Value]bool{}) {
+			chmods[call.(ssa.Instruction)] = true
+		}
+	}
+	// targets: the next entry (header of the innermost loop around the site) and successful returns
+	var loopHead ssa.Instruction
+	size := 0
+	for _, l := range Loops(fn) {
+		if l.Contains(from) && (loopHead == nil || len(l.Blocks) < size) {
+			loopHead, size = l.Header.Instrs[0], len(l.Blocks)
+		}
+	}
+	okRets := map[ssa.Instruction]bool{}
+	if ErrResultIndex(fn.Signature) >= 0 {
+		for _, a := range c11SuccessAtoms(fn) {
+			okRets[a.Ret] = true
+		}
+	} else {
+		for _, r := range Returns(fn) {
+			okRets[r] = true
+		}
+	}
+	type state struct{ b, pred *ssa.BasicBlock }
+	visited := map[state]bool{}
+	skipped := false
+	var walk func(b, pred *ssa.BasicBlock, idx int, phis map[*ssa.Phi]ssa.Value)
+	resolve := func(v ssa.Value, phis map[*ssa.Phi]ssa.Value) (val bool, known bool) {
+		for i := 0; i < 4; i++ {
+			if p, isPhi := v.(*ssa.Phi); isPhi {
+				if r, ok := phis[p]; ok {
+					v = r
+					continue
+				}
+			}
+			break
+		}
+		if flag[v] {
+			return true, true
+		}
+		if k, isConst := v.(*ssa.Const); isConst && k.Value != nil && k.Value.Kind() == constant.Bool {
+			return constant.BoolVal(k.Value), true
+		}
+		rs := Roots(v)
+		if len(rs) > 0 {
+			all := true
+			for _, r := range rs {
+				if !flag[r] {
+					all = false
+				}
+			}
+			if all {
+				return true, true
+			}
+		}
+		return false, false
+	}
+	walk = func(b, pred *ssa.BasicBlock, idx int, phis map[*ssa.Phi]ssa.Value) {
+		if skipped {
+			return
+		}
+		if idx == 0 {
+			st := state{b, pred}
+			if visited[st] {
+				return
+			}
+			visited[st] = true
+			if pred != nil {
+				np := map[*ssa.Phi]ssa.Value{}
+				for k, v := range phis {
+					np[k] = v
+				}
+				for _, in := range b.Instrs {
+					p, isPhi := in.(*ssa.Phi)
+					if !isPhi {
+						break
+					}
+					for i, pb := range b.Preds {
+						if pb == pred {
+							np[p] = p.Edges[i]
+						}
+					}
+				}
+				phis = np
+			}
+		}
+		for i := idx; i < len(b.Instrs); i++ {
+			in := b.Instrs[i]
+			if in == loopHead && idx == 0 && i == 0 {
+				skipped = true // the next entry is reached
+				return
+			}
+			if chmods[in] {
+				return
+			}
+			if r, isRet := in.(*ssa.Return); isRet {
+				if okRets[r] {
+					skipped = true
+				}
+				return
+			}
+			if ifi, isIf := in.(*ssa.If); isIf {
+				cond, t, f := ifEdges(ifi)
+				takeT, takeF := true, true
+				if k, eq, ok := c12TypeflagTest(cond); ok && kind != nil {
+					holds := (k == *kind) == eq
+					takeT, takeF = holds, !holds
+				} else if v, known := resolve(cond, phis); known {
+					takeT, takeF = v, !v
+				}
+				if takeT {
+					walk(t.To, b, 0, phis)
+				}
+				if takeF {
+					walk(f.To, b, 0, phis)
+				}
+				return
+			}
+		}
+		for _, sc := range b.Succs {
+			walk(sc, b, 0, phis)
+		}
+	}
+	walk(from.Block(), nil, instrIndex(from)+1, map[*ssa.Phi]ssa.Value{})
+	if !skipped {
+		return false, ""
+	}
+	if len(chmods) > 0 {
+		return true, "a path from the creation reaches the next entry / a successful return without the chmod to the header mode"
+	}
+	// no chmod of this entry here: the creating function is a helper — look at its call sites
+	if depth >= 3 {
+		return true, "no chmod of the created entry to its header mode is found"
+	}
+	pidx := -1
+	if rs := Roots(path); len(rs) == 1 {
+		if prm, ok := rs[0].(*ssa.Parameter); ok && prm.Parent() == fn {
+			for i, q := range fn.Params {
+				if q == prm {
+					pidx = i
+				}
+			}
+		}
+	}
+	if pidx < 0 {
+		return true, "no chmod of the created entry to its header mode is found"
+	}
+	type site struct {
+		g    *ssa.Function
+		call ssa.CallInstruction
+		kind *int64
+	}
+	var sites []site
+	for _, g := range fns {
+		for _, call := range Calls(g, func(string) bool { return true }) {
+			if StaticCallee(call) == fn && pidx < len(call.Common().Args) {
+				sites = append(sites, site{g, call, kind})
+			}
+		}
+	}
+	if len(sites) == 0 && fn.Parent() != nil {
+		// a function literal kept in a dispatch table keyed by the entry kind
+		var k *int64
+		AllInstrs(fn.Parent(), func(in ssa.Instruction) {
+			mu, ok := in.(*ssa.MapUpdate)
+			if !ok {
+				return
+			}
+			isFn := mu.Value == ssa.Value(fn)
+			if mc, isMC := mu.Value.(*ssa.MakeClosure); isMC && mc.Fn == ssa.Value(fn) {
+				isFn = true
+			}
+			if kk, isK := constInt(mu.Key); isFn && isK {
+				k = &kk
+			}
+		})
+		for _, g := range append([]*ssa.Function{fn.Parent()}, Anons(fn.Parent())...) {
+			for _, call := range Calls(g, func(string) bool { return true }) {
+				cc := call.Common()
+				if cc.IsInvoke() || StaticCallee(call) != nil {
+					continue
+				}
+				if sig, ok := cc.Value.Type().Underlying().(*types.Signature); ok && types.Identical(sig, fn.Signature) && pidx < len(cc.Args) {
+					if kind != nil {
+						k = kind
+					}
+					sites = append(sites, site{g, call, k})
+				}
+			}
+		}
+	}
+	if len(sites) == 0 {
+		return true, "no chmod of the created entry to its header mode is found"
+	}
+	for _, st := range sites {
+		if _, isDefer := st.call.(*ssa.Defer); isDefer {
+			return true, "the creating helper is called deferred"
+		}
+		if sk, why := c12ChmodSkipped(fns, flags, st.g, st.call.(ssa.Instruction), st.call.Common().Args[pidx], nil, st.kind, depth+1); sk {
+			return true, why
+		}
+	}
+	return false, ""
 }
 
 // ---------- R1: directory packer ----------
@@ -2003,6 +2291,13 @@ var c12Mutants = []Mutant{
 	{Name: "file-entry-mode-constant", File: "content/file/utils.go",
 		Old: "\t\t\terr = writeFile(filePath, tr, header.FileInfo().Mode(), buf)", New: "\t\t\terr = writeFile(filePath, tr, 0666, buf)",
 		Expect: "C12.R6.entry-mode-from-header|archive-entry|os.OpenFile"},
+	// R7
+	{Name: "preserved-mode-only-for-files", File: "content/file/utils.go",
+		Old: "\t\tif preservePermissions && (header.Typeflag == tar.TypeReg || header.Typeflag == tar.TypeDir) {", New: "\t\tif preservePermissions && header.Typeflag == tar.TypeReg {",
+		Expect: "C12.R7.preserved-modes-exact|archive-entry|os.MkdirAll"},
+	{Name: "preserved-mode-flag-inverted", File: "content/file/utils.go",
+		Old: "\t\tif preservePermissions && (header.Typeflag == tar.TypeReg || header.Typeflag == tar.TypeDir) {", New: "\t\tif !preservePermissions && (header.Typeflag == tar.TypeReg || header.Typeflag == tar.TypeDir) {",
+		Expect: "C12.R7.preserved-modes-exact|archive-entry|os."},
 	// R3
 	{Name: "uid-not-zeroed", File: "content/file/utils.go",
 		Old: "\t\theader.Uid = 0\n", New: "",
